@@ -307,6 +307,9 @@ def obligations(tier, seed):
                           {"scheme": scheme, "over": {}, "lens": lens, "seed": seed}, budget_s=400))
             obs.append(ob("c04.keyed.%s.%s" % (scheme, tag), "harness.c04", "h_keyed",
                           {"scheme": scheme, "over": {}, "lens": lens, "seed": seed}, budget_s=400))
+    # exactly 256 encryptions per setup (a pool / counter of IVs wrapping at 2^8 would repeat between two setups)
+    obs.append(ob("c04.keyed.CJJ14.PiBas.128-128", "harness.c04", "h_keyed",
+                  {"scheme": "CJJ14.PiBas", "over": {}, "lens": [128, 128], "seed": seed}, budget_s=900, per_path_s=300))
     for lens in ([2, 1], [4, 3, 1]):
         tag = "-".join(map(str, lens))
         over = {"param_L": 2, "param_actual_storage_level_ratio": 1.0}
